@@ -127,6 +127,11 @@ class World:
         add("Dense U2 cap9", None, 9, 0, 0, _imat([[3, 1], [2, 1]]), True)
         add("Dense U3 cap6", None, 6, 1, 1, _imat([[1, 0, 0], [2, 1, 0], [0, -1, 1]]), True)
         add("Dense U2 cap12", None, 12, 0, 0, _imat([[1, 1], [1, 2]]), True)
+        # B and C = B^H as separate leaves advertising TIMES | ADJOINT_INVERSE only: the chain B @ C is Hermitian positive
+        # definite but advertises neither adjoint nor inverse, so InversionEnabler(B @ C) has to flip the chain with trafo 3
+        add("Dense U2 cap9 B", None, 9, 0, 0, _imat([[2, 1], [0, 1]]), True)
+        add("Dense U2 cap9 B^H", None, 9, 0, 0, _imat([[2, 0], [1, 1]]), True)
+        self.spd_chain_leaves = (len(self.leaves) - 2, len(self.leaves) - 1)
         self.leaf_by_obj = {id(l.op): l.id for l in self.leaves}
 
     # ------------------------------------------------------------------------------------------
